@@ -388,12 +388,17 @@ impl FeoxStore {
             sector += sectors_needed as u64;
         }
 
+        let superseded = retired_extents.len();
         if let Some(now) = recovery_time {
             self.remove_expired_recovery_winners(now, format, &mut retired_extents)?;
         }
 
         if !self.read_only {
-            disk.retire_extents(&retired_extents)?;
+            // Large retirement sets span several journal transactions. Older generations must
+            // be durably dead before the expired winner that shadows them is retired, or an
+            // interrupted recovery could bring one back.
+            disk.retire_extents(&retired_extents[..superseded])?;
+            disk.retire_extents(&retired_extents[superseded..])?;
         }
 
         if last_end < total_sectors {
